@@ -2,6 +2,7 @@ package props
 
 import (
 	"bytes"
+	"encoding/hex"
 	"fmt"
 	"os"
 	"path/filepath"
@@ -10,6 +11,7 @@ import (
 	blocks "github.com/ipfs/go-block-format"
 	"github.com/ipfs/go-cid"
 	"github.com/ipld/go-car/v2/blockstore"
+	"github.com/ipld/go-car/v2/index"
 	"github.com/ipld/go-car/v2/storage"
 
 	"verif/drv"
@@ -24,17 +26,40 @@ type C06Point struct {
 }
 
 type C06Case struct {
-	Front string   `json:"front"` // bs, st
+	// bs  = blockstore.OpenReadWriteFile (open and resume)
+	// st  = storage.NewReadableWritable / OpenReadableWritable
+	// bsp = sessions as bs; every crash image is reopened with blockstore.OpenReadWrite(path) and
+	//       finished with FinalizeReadOnly + Close
+	// stw = first generation opened with storage.NewWritable, resumptions with OpenReadableWritable
+	Front string   `json:"front"`
 	Opts  drv.Opts `json:"opts"`
-	// generation 1: ops "put:x" / "F"
+	// root set: "" = {a}, "empty" = no roots, "five" = {a,b,c,e,s} (CARv1 header > 127 bytes)
+	Roots string `json:"roots,omitempty"`
+	// generation 1: ops "put:x" / "many:x,y" / "F"
 	Gen1 []string `json:"gen1"`
-	// if Gen2 is set, generation 1 is cut at Cut1 (nil = runs to completion) and the
-	// crash points enumerated are those of generation 2, which resumes from that image
+	// Gens = number of generations (0 = 1). Generation k < Gens is cut at Cutk (nil = runs to
+	// completion); the crash points enumerated are those of the last generation, which resumes
+	// from the image left by the previous ones.
+	Gens int       `json:"gens,omitempty"`
 	Cut1 *C06Point `json:"cut1,omitempty"`
 	Gen2 []string  `json:"gen2,omitempty"`
+	Cut2 *C06Point `json:"cut2,omitempty"`
+	Gen3 []string  `json:"gen3,omitempty"`
 	// replay: only this crash point of the last generation
 	Point *C06Point `json:"point,omitempty"`
 	Tier  string    `json:"tier,omitempty"`
+}
+
+func (c C06Case) nGens() int {
+	switch {
+	case c.Gens > 0:
+		return c.Gens
+	case c.Gen3 != nil:
+		return 3
+	case c.Gen2 != nil:
+		return 2
+	}
+	return 1
 }
 
 type c06Put struct {
@@ -52,29 +77,68 @@ type c06Sess struct {
 }
 
 type c06Store struct {
-	bs *blockstore.ReadWrite
-	st *storage.StorageCar
+	bs     *blockstore.ReadWrite
+	st     *storage.StorageCar
+	byPath bool // bs opened with OpenReadWrite(path): finish with FinalizeReadOnly + Close
+	whole  bool
+}
+
+func c06RootSet(name string) []cid.Cid {
+	switch name {
+	case "":
+		return []cid.Cid{kit.B("a").Cid}
+	case "empty":
+		return []cid.Cid{}
+	case "five":
+		var out []cid.Cid
+		for _, n := range []string{"a", "b", "c", "e", "s"} {
+			out = append(out, kit.B(n).Cid)
+		}
+		return out
+	case "b": // only used as the "wrong roots" of a mismatching reopen
+		return []cid.Cid{kit.B("b").Cid}
+	}
+	panic("c06: unknown root set " + name)
 }
 
 func c06Open(front string, f *os.File, roots []cid.Cid, o drv.Opts, resume bool) (*c06Store, error) {
-	if front == "bs" {
+	if front == "bs" || front == "bsp" {
 		bs, err := blockstore.OpenReadWriteFile(f, roots, o.List()...)
 		if err != nil {
 			return nil, err
 		}
-		return &c06Store{bs: bs}, nil
+		return &c06Store{bs: bs, whole: o.Whole}, nil
 	}
 	var st *storage.StorageCar
 	var err error
-	if resume {
+	switch {
+	case resume:
 		st, err = storage.OpenReadableWritable(f, roots, o.List()...)
-	} else {
+	case front == "stw":
+		var wc storage.WritableCar
+		wc, err = storage.NewWritable(f, roots, o.List()...)
+		if err == nil {
+			st = wc.(*storage.StorageCar)
+		}
+	default:
 		st, err = storage.NewReadableWritable(f, roots, o.List()...)
 	}
 	if err != nil {
 		return nil, err
 	}
-	return &c06Store{st: st}, nil
+	return &c06Store{st: st, whole: o.Whole}, nil
+}
+
+// c06Reopen opens a crash image for read-write through the front-end's resumption entry point.
+func c06Reopen(front, path string, f *os.File, roots []cid.Cid, o drv.Opts) (*c06Store, error) {
+	if front == "bsp" {
+		bs, err := blockstore.OpenReadWrite(path, roots, o.List()...)
+		if err != nil {
+			return nil, err
+		}
+		return &c06Store{bs: bs, byPath: true, whole: o.Whole}, nil
+	}
+	return c06Open(front, f, roots, o, true)
 }
 
 func (s *c06Store) Put(b kit.Blk) error {
@@ -83,8 +147,29 @@ func (s *c06Store) Put(b kit.Blk) error {
 	}
 	return s.st.Put(drv.Ctx, b.Cid.KeyString(), b.Data)
 }
+func (s *c06Store) PutMany(bl []kit.Blk) error {
+	if s.bs != nil {
+		var l []blocks.Block
+		for _, b := range bl {
+			l = append(l, b.Block())
+		}
+		return s.bs.PutMany(drv.Ctx, l)
+	}
+	for _, b := range bl {
+		if err := s.Put(b); err != nil {
+			return err
+		}
+	}
+	return nil
+}
 func (s *c06Store) Finalize() error {
 	if s.bs != nil {
+		if s.byPath {
+			if err := s.bs.FinalizeReadOnly(); err != nil {
+				return err
+			}
+			return s.bs.Close()
+		}
 		return s.bs.Finalize()
 	}
 	return s.st.Finalize()
@@ -105,15 +190,26 @@ func (s *c06Store) Get(c cid.Cid) ([]byte, error) {
 	}
 	return s.st.Get(drv.Ctx, c.KeyString())
 }
+
+// Keys lists the store: AllKeysChan for the blockstore (multihash keys unless whole CIDs), the
+// public insertion index (StorageCar.Index) for the storage front-end (always whole CIDs).
 func (s *c06Store) Keys() ([]cid.Cid, error) {
+	var out []cid.Cid
 	if s.bs == nil {
-		return nil, drv.ErrNoListing
+		ii, ok := s.st.Index().(*index.InsertionIndex)
+		if !ok {
+			return nil, drv.ErrNoListing
+		}
+		err := ii.ForEachCid(func(c cid.Cid, _ uint64) error {
+			out = append(out, c)
+			return nil
+		})
+		return out, err
 	}
 	ch, err := s.bs.AllKeysChan(drv.Ctx)
 	if err != nil {
 		return nil, err
 	}
-	var out []cid.Cid
 	for c := range ch {
 		out = append(out, c)
 	}
@@ -125,10 +221,8 @@ func (s *c06Store) Discard() {
 	}
 }
 
-var c06Roots = []cid.Cid{kit.B("a").Cid}
-
 // runSession executes ops on path (resuming when the file is non-empty) under a trace.
-func c06RunSession(front, path string, o drv.Opts, ops []string) (*c06Sess, error) {
+func c06RunSession(front, path string, o drv.Opts, roots []cid.Cid, ops []string) (*c06Sess, error) {
 	f, err := os.OpenFile(path, os.O_RDWR|os.O_CREATE, 0o644)
 	if err != nil {
 		panic(err)
@@ -139,7 +233,7 @@ func c06RunSession(front, path string, o drv.Opts, ops []string) (*c06Sess, erro
 	tr := drv.NewTrace(f)
 	defer tr.Stop()
 	se := &c06Sess{tr: tr, base: append([]byte{}, tr.Img...)}
-	s, err := c06Open(front, f, c06Roots, o, resume)
+	s, err := c06Open(front, f, roots, o, resume)
 	tr.EndCall()
 	if resume {
 		se.labels = append(se.labels, "resume")
@@ -161,23 +255,24 @@ func c06RunSession(front, path string, o drv.Opts, ops []string) (*c06Sess, erro
 			continue
 		}
 		if strings.HasPrefix(op, "many:") {
-			// one PutMany call: all its blocks are acknowledged only when the call returns
 			bl := kit.Bs(strings.Split(strings.TrimPrefix(op, "many:"), ","))
-			call := tr.Call
-			var err error
-			if s.bs != nil {
-				var l []blocks.Block
+			if s.bs == nil {
+				// the storage front-end has no PutMany: N Puts, each acknowledged when it returns
 				for _, b := range bl {
-					l = append(l, b.Block())
-				}
-				err = s.bs.PutMany(drv.Ctx, l)
-			} else {
-				for _, b := range bl {
-					if err = s.Put(b); err != nil {
-						break
+					call := tr.Call
+					err := s.Put(b)
+					tr.EndCall()
+					se.labels = append(se.labels, "put")
+					if err != nil {
+						return se, fmt.Errorf("%s: %w", op, err)
 					}
+					se.puts = append(se.puts, c06Put{b, call})
 				}
+				continue
 			}
+			// one PutMany call: all its blocks are acknowledged only when the call returns
+			call := tr.Call
+			err := s.PutMany(bl)
 			tr.EndCall()
 			se.labels = append(se.labels, "put")
 			if err != nil {
@@ -201,15 +296,19 @@ func c06RunSession(front, path string, o drv.Opts, ops []string) (*c06Sess, erro
 	return se, nil
 }
 
+func (se *c06Sess) callStart(call int) int {
+	if call > 0 {
+		return se.tr.CallEnd[call-1]
+	}
+	return 0
+}
+
 // c06Class labels record i: (API call kind, which write of that call, torn field).
 func c06Class(se *c06Sess, i, t int) string {
 	r := se.tr.Log[i]
 	call := se.labels[r.Call]
 	// ordinal within the call
-	start := 0
-	if r.Call > 0 {
-		start = se.tr.CallEnd[r.Call-1]
-	}
+	start := se.callStart(r.Call)
 	end := se.tr.CallEnd[r.Call]
 	ord := i - start
 	n := end - start
@@ -219,6 +318,8 @@ func c06Class(se *c06Sess, i, t int) string {
 	} else {
 		switch call {
 		case "put":
+			// LdWrite issues exactly three writes per section (length, CID, data - the data write is
+			// issued even when empty); Truncate never happens inside a put
 			part = []string{"varint", "cid", "data"}[ord%3]
 		case "open":
 			if r.Synthetic {
@@ -259,6 +360,31 @@ func c06Class(se *c06Sess, i, t int) string {
 	return call + ":" + part + ":" + torn
 }
 
+// c06IndexOnDisk returns the number of index bytes a Finalize call had written at crash point
+// (i,t), or -1 when the point is not inside a CARv2 Finalize call.
+func c06IndexOnDisk(se *c06Sess, i, t int) int {
+	if i >= len(se.tr.Log) {
+		return -1
+	}
+	r := se.tr.Log[i]
+	if se.labels[r.Call] != "finalize" {
+		return -1
+	}
+	start, end := se.callStart(r.Call), se.tr.CallEnd[r.Call]
+	n := 0
+	for k := start; k < end-2 && k <= i; k++ {
+		if se.tr.Log[k].Kind != "write" {
+			continue
+		}
+		if k < i {
+			n += len(se.tr.Log[k].Data)
+		} else {
+			n += t
+		}
+	}
+	return n
+}
+
 // tornLengths for record r.
 func c06Torn(r drv.Rec, tier string, exhaustiveData bool) []int {
 	if r.Kind == "truncate" {
@@ -280,9 +406,157 @@ func c06Torn(r drv.Rec, tier string, exhaustiveData bool) []int {
 	return out
 }
 
+// c06GenModel is what one generation did up to its cut.
+type c06GenModel struct {
+	acked    []kit.Blk // puts that had returned, in call order
+	inflight []kit.Blk // blocks of the call that was executing at the cut, in argument order
+}
+
+// c06ModelAt: puts of se acknowledged at crash point i, and the blocks of the call in progress.
+// i < 0: the session ran to completion.
+func c06ModelAt(se *c06Sess, i int) c06GenModel {
+	var m c06GenModel
+	for _, p := range se.puts {
+		switch {
+		case i < 0 || se.tr.CallEnd[p.call] <= i:
+			m.acked = append(m.acked, p.blk)
+		case se.callStart(p.call) <= i:
+			m.inflight = append(m.inflight, p.blk)
+		}
+	}
+	return m
+}
+
+// c06Disk models the sections of the payload under the documented put rules: identity CIDs are
+// not stored unless StoreIdentityCIDs; duplicates (by multihash, by whole CID with UseWholeCIDs)
+// are not written again unless AllowDuplicatePuts.
+type c06Disk struct {
+	seq  []string
+	mh   map[string]bool
+	cids map[string]bool
+}
+
+func (d *c06Disk) clone() *c06Disk {
+	n := &c06Disk{seq: append([]string{}, d.seq...), mh: map[string]bool{}, cids: map[string]bool{}}
+	for k := range d.mh {
+		n.mh[k] = true
+	}
+	for k := range d.cids {
+		n.cids[k] = true
+	}
+	return n
+}
+
+func (d *c06Disk) put(o drv.Opts, b kit.Blk) bool {
+	if model.IsIdentity(b.Raw) && !o.StoreID {
+		return false
+	}
+	mh := string(multihashBytes(b.Raw))
+	if !o.AllowDup {
+		if o.Whole {
+			if d.cids[string(b.Raw)] {
+				return false
+			}
+		} else if d.mh[mh] {
+			return false
+		}
+	}
+	d.seq = append(d.seq, hex.EncodeToString(b.Raw))
+	d.mh[mh] = true
+	d.cids[string(b.Raw)] = true
+	return true
+}
+
+// c06Expected enumerates the section sequences the final archive may hold: per generation the
+// acknowledged puts in order, then any prefix of the sections the interrupted call would have
+// written (a crash image is a prefix of the writes), then the continuation puts.
+func c06Expected(o drv.Opts, gens []c06GenModel, cont []kit.Blk) map[string]bool {
+	out := map[string]bool{}
+	var rec func(g int, d *c06Disk)
+	rec = func(g int, d *c06Disk) {
+		if g == len(gens) {
+			for _, b := range cont {
+				d.put(o, b)
+			}
+			out[strings.Join(d.seq, ",")] = true
+			return
+		}
+		for _, b := range gens[g].acked {
+			d.put(o, b)
+		}
+		rec(g+1, d.clone())
+		for _, b := range gens[g].inflight {
+			if d.put(o, b) {
+				rec(g+1, d.clone())
+			}
+		}
+	}
+	rec(0, &c06Disk{mh: map[string]bool{}, cids: map[string]bool{}})
+	return out
+}
+
+// c06Img is one crash image together with what the model knows about it.
+type c06Img struct {
+	rc     C06Case
+	img    []byte
+	gens   []c06GenModel
+	class  string
+	clean  bool // crash point is a call boundary of the API (nothing in flight)
+	classA bool // known class A: crash inside Finalize with >= 1 KiB of index on disk and no complete header
+	// known class B: ZeroLengthSectionAsEOF with index padding, and some generation crashed inside
+	// Finalize after index bytes had reached the disk: Resume stops at the zeros of the padding and
+	// leaves the writer in front of a stale tail (padding hole + old index bytes)
+	staleTail bool
+	depth     int // 1 = image left behind by a refused reopen
+}
+
+func (m *c06Img) acked() []kit.Blk {
+	var out []kit.Blk
+	for _, g := range m.gens {
+		out = append(out, g.acked...)
+	}
+	return out
+}
+func (m *c06Img) inflight() []kit.Blk {
+	var out []kit.Blk
+	for _, g := range m.gens {
+		out = append(out, g.inflight...)
+	}
+	return out
+}
+
+// c06SectionsIntact reports the first acknowledged block whose section was in img and is no longer
+// at the same offset in after.
+func c06SectionsIntact(img, after []byte, acked []kit.Blk) (string, bool) {
+	for _, b := range acked {
+		sec := refcar.EncodeSection(b.Ref())
+		for from := 0; ; {
+			k := bytes.Index(img[from:], sec)
+			if k < 0 {
+				break
+			}
+			k += from
+			if len(after) < k+len(sec) || !bytes.Equal(after[k:k+len(sec)], sec) {
+				return b.Name, false
+			}
+			from = k + 1
+		}
+	}
+	return "", true
+}
+
+var c06QueryNames = []string{"a", "b", "c", "e", "a'", "a0", "i", "i0", "L300", "L70000"}
+
 // c06CheckImage reopens img and applies the oracle.
-func c06CheckImage(x *kit.Ctx, rc C06Case, img []byte, acked, inflight []kit.Blk, class string) {
+func c06CheckImage(x *kit.Ctx, m *c06Img) {
+	rc, img, class := m.rc, m.img, m.class
 	front, o := rc.Front, rc.Opts
+	roots := c06RootSet(rc.Roots)
+	failed := false // per crash image (Ctx.Fail de-duplicates signatures per case)
+	fail := func(sig, format string, args ...any) {
+		failed = true
+		x.FailCase(rc, sig, format, args...)
+	}
 	path := filepath.Join(x.Dir, "c06-img.car")
 	if err := os.WriteFile(path, img, 0o644); err != nil {
 		panic(err)
@@ -298,27 +572,84 @@ func c06CheckImage(x *kit.Ctx, rc C06Case, img []byte, acked, inflight []kit.Blk
 	if len(img) == 0 {
 		return // nothing on disk: a fresh start, not a resumption
 	}
-	s, err := c06Open(front, f, c06Roots, o, true)
+	acked, inflight := m.acked(), m.inflight()
+	s, err := c06Reopen(front, path, f, roots, o)
 	if err != nil {
 		x.Outcome("reopen-refused")
+		if m.clean {
+			// allowed by C06 (C12 owns "a cleanly interrupted session resumes"); counted so
+			// that an always-refusing Resume shows up in the evidence
+			x.Outcome("reopen-refused-at-call-boundary")
+			x.Note("refused-at-call-boundary: "+class+" "+front+fmt.Sprintf(" %+v", o), fmt.Sprintf("%v | gen1=%v cut1=%v gen2=%v cut2=%v gen3=%v point=%v", err, rc.Gen1, rc.Cut1, rc.Gen2, rc.Cut2, rc.Gen3, rc.Point))
+		}
 		// must not have destroyed any acknowledged block already on disk
 		after, _ := os.ReadFile(path)
-		for _, b := range acked {
-			sec := refcar.EncodeSection(b.Ref())
-			if bytes.Contains(img, sec) && !bytes.Contains(after, sec) {
-				x.FailCase(rc, "c06:"+class+":acked-block-destroyed-by-refused-reopen", "reopen failed (%v) and destroyed acknowledged block %s", err, b.Name)
+		if name, ok := c06SectionsIntact(img, after, acked); !ok {
+			fail("c06:"+class+":acked-block-destroyed-by-refused-reopen", "reopen failed (%v) and destroyed acknowledged block %s", err, name)
+		}
+		if !bytes.Equal(after, img) {
+			x.Outcome("reopen-refused-file-modified")
+			if m.depth == 0 && !failed {
+				// the refused reopen issued writes of its own: what it left behind is again an image
+				// that a caller may try to reopen
+				c06CheckImage(x, &c06Img{rc: rc, img: after, gens: m.gens, class: class + ":after-refused-reopen", classA: m.classA, staleTail: m.staleTail, depth: 1})
 			}
 		}
 		return
 	}
 	defer s.Discard()
 	x.Outcome("reopen-ok")
-	okPut := map[string]kit.Blk{}
-	for _, b := range acked {
-		okPut[string(b.Raw)] = b
+	if m.classA {
+		x.Outcome("reopen-ok-classA")
 	}
-	for _, b := range inflight {
-		okPut[string(b.Raw)] = b
+	var okPut []kit.Blk
+	okPut = append(append(okPut, acked...), inflight...)
+	// justify: some put block carries the key (whole CID under UseWholeCIDs, multihash otherwise)
+	justify := func(raw []byte, whole bool) *kit.Blk {
+		for k := range okPut {
+			if whole && bytes.Equal(okPut[k].Raw, raw) {
+				return &okPut[k]
+			}
+			if !whole && bytes.Equal(multihashBytes(okPut[k].Raw), multihashBytes(raw)) {
+				return &okPut[k]
+			}
+		}
+		return nil
+	}
+	isInflight := func(b *kit.Blk) bool {
+		for _, a := range acked {
+			if bytes.Equal(a.Raw, b.Raw) {
+				return false
+			}
+		}
+		return true
+	}
+	// tornOverStale: some section write was in flight (in any generation) and the multihash read back
+	// stands in the image (what was written of the torn section's CID completed by bytes of the tail)
+	tornOverStale := func(mh []byte) bool {
+		return len(inflight) > 0 && bytes.Contains(img, mh)
+	}
+	phantom := func(raw []byte, format string, args ...any) {
+		sig := "c06:" + class + ":phantom-block"
+		// bytes that are not a section were scanned as one
+		switch {
+		case m.classA && bytes.Equal(multihashBytes(raw), []byte{0, 0}):
+			// class A of KNOWN_FINDINGS.txt: the index (>= 1 KiB on disk, header not valid yet) is scanned
+			// as a section; 01 00 00 00 parses as a CIDv1 with an identity multihash and an empty digest
+			sig = "c06:classA-index-read-as-section:" + class + ":phantom-block"
+		case m.staleTail && tornOverStale(multihashBytes(raw)):
+			// class B: a torn section write completed by the stale tail (the CID read is what was
+			// written of an in-flight block's CID, followed by zeros / old index bytes)
+			sig = "c06:classB-zeroeof-stale-tail:" + class + ":phantom-block"
+		}
+		fail(sig, format, args...)
+	}
+	corrupt := func(src *kit.Blk, format string, args ...any) {
+		sig := "c06:" + class + ":corrupt-bytes"
+		if m.staleTail && src != nil && isInflight(src) {
+			sig = "c06:classB-zeroeof-stale-tail:" + class + ":corrupt-bytes"
+		}
+		fail(sig, format, args...)
 	}
 	for _, b := range acked {
 		if model.IsIdentity(b.Raw) && !o.StoreID {
@@ -327,15 +658,26 @@ func c06CheckImage(x *kit.Ctx, rc C06Case, img []byte, acked, inflight []kit.Blk
 		has, herr := s.Has(b.Cid)
 		data, gerr := s.Get(b.Cid)
 		if herr != nil || !has || gerr != nil {
-			x.FailCase(rc, "c06:"+class+":acked-block-missing", "resumed store lacks acknowledged block %s: Has=%v,%v Get err=%v", b.Name, has, herr, gerr)
+			fail("c06:"+class+":acked-block-missing", "resumed store lacks acknowledged block %s: Has=%v,%v Get err=%v", b.Name, has, herr, gerr)
 		} else if !bytes.Equal(data, b.Data) {
-			x.FailCase(rc, "c06:"+class+":acked-block-corrupt", "resumed store returns wrong bytes for acknowledged block %s: %x want %x", b.Name, clip(data), clip(b.Data))
+			fail("c06:"+class+":acked-block-corrupt", "resumed store returns wrong bytes for acknowledged block %s: %x want %x", b.Name, clip(data), clip(b.Data))
 		}
 	}
-	// everything retrievable was put, and is intact
+	// everything retrievable was put, and is intact: every block of the sessions (acknowledged or
+	// in flight) plus a fixed list of blocks that may or may not have been put
 	var queries []kit.Blk
-	for _, n := range []string{"a", "b", "c", "e", "a'", "i", "L300", "L70000"} {
-		queries = append(queries, kit.B(n))
+	seenQ := map[string]bool{}
+	for _, b := range okPut {
+		if !seenQ[b.Name] {
+			seenQ[b.Name] = true
+			queries = append(queries, b)
+		}
+	}
+	for _, n := range c06QueryNames {
+		if !seenQ[n] {
+			seenQ[n] = true
+			queries = append(queries, kit.B(n))
+		}
 	}
 	for _, q := range queries {
 		if model.IsIdentity(q.Raw) && !o.StoreID {
@@ -346,62 +688,139 @@ func c06CheckImage(x *kit.Ctx, rc C06Case, img []byte, acked, inflight []kit.Blk
 		if !has && gerr != nil {
 			continue
 		}
-		// present under multihash semantics: some put block must carry the key
-		var src *kit.Blk
-		for _, p := range okPut {
-			p := p
-			if bytes.Equal(multihashBytes(p.Raw), multihashBytes(q.Raw)) {
-				src = &p
-			}
-		}
+		src := justify(q.Raw, o.Whole)
 		if src == nil {
-			x.FailCase(rc, "c06:"+class+":phantom-block", "resumed store reports %s (Has=%v, Get err=%v) which was never put", q.Name, has, gerr)
+			phantom(q.Raw, "resumed store reports %s (Has=%v, Get err=%v) which was never put", q.Name, has, gerr)
 			continue
 		}
 		if gerr == nil && !bytes.Equal(data, src.Data) {
-			x.FailCase(rc, "c06:"+class+":corrupt-bytes", "resumed store returns %d bytes for %s that are not the block's (%x)", len(data), q.Name, clip(data))
+			corrupt(src, "resumed store returns %d bytes for %s that are not the block's (%x)", len(data), q.Name, clip(data))
 		} else if has && gerr != nil {
-			x.FailCase(rc, "c06:"+class+":corrupt-bytes", "resumed store has %s but Get fails: %v", q.Name, gerr)
+			corrupt(src, "resumed store has %s but Get fails: %v", q.Name, gerr)
 		}
 	}
-	if keys, err := s.Keys(); err == nil {
+	if keys, err := s.Keys(); err != nil {
+		fail("c06:"+class+":listing-error", "listing the resumed store failed: %v", err)
+	} else {
+		// the blockstore lists multihash keys unless UseWholeCIDs; the storage index holds the CIDs as put
+		wholeKeys := o.Whole || s.bs == nil
 		for _, k := range keys {
+			src := justify(k.Bytes(), wholeKeys)
+			if src == nil {
+				phantom(k.Bytes(), "resumed store lists key %s which was never put", k)
+				continue
+			}
+			if model.IsIdentity(src.Raw) && !o.StoreID {
+				fail("c06:"+class+":phantom-block", "resumed store lists identity key %s although identity CIDs are not stored", k)
+				continue
+			}
+			// a listed key must be retrievable, with the bytes of the block that was put under it
+			q := src.Cid
+			data, gerr := s.Get(q)
+			if gerr != nil {
+				corrupt(src, "resumed store lists %s (%s) but Get fails: %v", k, src.Name, gerr)
+			} else if !bytes.Equal(data, src.Data) {
+				corrupt(src, "resumed store lists %s (%s) and returns %d bytes that are not the block's (%x)", k, src.Name, len(data), clip(data))
+			}
+		}
+		// every acknowledged (stored) block is listed
+		for _, b := range acked {
+			if model.IsIdentity(b.Raw) && !o.StoreID {
+				continue
+			}
 			found := false
-			for _, p := range okPut {
-				if bytes.Equal(multihashBytes(p.Raw), []byte(k.Hash())) {
-					found = true
+			for _, k := range keys {
+				if o.Whole {
+					found = found || bytes.Equal(k.Bytes(), b.Raw)
+				} else {
+					found = found || bytes.Equal([]byte(k.Hash()), multihashBytes(b.Raw))
 				}
 			}
 			if !found {
-				x.FailCase(rc, "c06:"+class+":phantom-block", "resumed store lists key %s which was never put", k)
+				fail("c06:"+class+":acked-block-missing", "resumed store does not list acknowledged block %s", b.Name)
 			}
 		}
 	}
-	if x.Failed() {
+	if failed {
 		return
 	}
-	// continue: more puts and Finalize must give a well-formed archive holding all of them
+	// continue: more puts and Finalize must give a well-formed archive holding all of them. The
+	// continuation puts again what was in flight, an acknowledged block again (the
+	// de-duplication state has to be rebuilt by the resumption), and a fresh block.
 	nb := kit.B("c")
+	var cont []kit.Blk
+	cont = append(cont, inflight...)
+	if len(acked) > 0 {
+		cont = append(cont, acked[0])
+	}
+	cont = append(cont, nb)
+	if len(inflight) > 1 {
+		if err := s.PutMany(inflight); err != nil {
+			fail("c06:"+class+":continue-put-error", "PutMany(in-flight blocks) after resumption failed: %v", err)
+			return
+		}
+	} else if len(inflight) == 1 {
+		if err := s.Put(inflight[0]); err != nil {
+			fail("c06:"+class+":continue-put-error", "Put(in-flight block %s) after resumption failed: %v", inflight[0].Name, err)
+			return
+		}
+	}
+	if len(acked) > 0 {
+		if err := s.Put(acked[0]); err != nil {
+			fail("c06:"+class+":continue-put-error", "Put(acknowledged block %s) again after resumption failed: %v", acked[0].Name, err)
+			return
+		}
+	}
 	if err := s.Put(nb); err != nil {
-		x.FailCase(rc, "c06:"+class+":continue-put-error", "Put after resumption failed: %v", err)
+		fail("c06:"+class+":continue-put-error", "Put after resumption failed: %v", err)
 		return
+	}
+	for _, b := range cont {
+		if model.IsIdentity(b.Raw) && !o.StoreID {
+			continue
+		}
+		data, err := s.Get(b.Cid)
+		if err != nil || !bytes.Equal(data, b.Data) {
+			fail("c06:"+class+":continue-get-wrong", "after resumption and Put, Get(%s) = %x, %v; want %x", b.Name, clip(data), err, clip(b.Data))
+			return
+		}
 	}
 	if err := s.Finalize(); err != nil {
-		x.FailCase(rc, "c06:"+class+":continue-finalize-error", "Finalize after resumption failed: %v", err)
+		fail("c06:"+class+":continue-finalize-error", "Finalize after resumption failed: %v", err)
 		return
 	}
 	final, _ := os.ReadFile(path)
 	fl, err := refcar.DecodeFile(final, o.ZeroEOF)
+	if err != nil && strings.Contains(err.Error(), "non-zero index padding") && len(final) >= refcar.PragmaSize+refcar.V2HeaderSize {
+		// the format does not constrain the content of the padding (refcar is stricter than that):
+		// count it, blank the padding and judge the rest
+		if m.staleTail {
+			x.Outcome("final-index-padding-not-zero:zeroeof-stale-tail")
+		} else {
+			x.Outcome("final-index-padding-not-zero")
+		}
+		h := refcar.ParseV2Header(final[refcar.PragmaSize:])
+		for k := h.DataOffset + h.DataSize; k < h.IndexOffset && k < uint64(len(final)); k++ {
+			final[k] = 0
+		}
+		fl, err = refcar.DecodeFile(final, o.ZeroEOF)
+	}
 	if err != nil {
-		x.FailCase(rc, "c06:"+class+":malformed-after-continue", "file after resume+Put+Finalize is not well-formed: %v", err)
+		fail("c06:"+class+":malformed-after-continue", "file after resume+Put+Finalize is not well-formed: %v", err)
 		return
 	}
-	okPut[string(nb.Raw)] = nb
+	putAll := map[string]kit.Blk{}
+	for _, b := range okPut {
+		putAll[string(b.Raw)] = b
+	}
+	putAll[string(nb.Raw)] = nb
 	present := map[string]bool{}
+	var seq []string
 	for _, sec := range fl.Payload.Sections {
 		present[string(sec.Cid)] = true
-		if _, ok := okPut[string(sec.Cid)]; !ok {
-			x.FailCase(rc, "c06:"+class+":phantom-block-in-final", "final archive holds section %x which was never put", sec.Cid)
+		seq = append(seq, hex.EncodeToString(sec.Cid))
+		if _, ok := putAll[string(sec.Cid)]; !ok {
+			fail("c06:"+class+":phantom-block-in-final", "final archive holds section %x which was never put", sec.Cid)
 		}
 	}
 	for _, b := range append(append([]kit.Blk{}, acked...), nb) {
@@ -410,21 +829,85 @@ func c06CheckImage(x *kit.Ctx, rc C06Case, img []byte, acked, inflight []kit.Blk
 		}
 		ok := false
 		for k := range present {
-			if bytes.Equal(multihashBytes([]byte(k)), multihashBytes(b.Raw)) {
+			if o.Whole {
+				ok = ok || k == string(b.Raw)
+			} else if bytes.Equal(multihashBytes([]byte(k)), multihashBytes(b.Raw)) {
 				ok = true
 			}
 		}
 		if !ok {
-			x.FailCase(rc, "c06:"+class+":acked-block-missing-in-final", "final archive lacks acknowledged block %s", b.Name)
+			fail("c06:"+class+":acked-block-missing-in-final", "final archive lacks acknowledged block %s", b.Name)
 		}
 	}
-	if !o.V1 {
-		if fl.Version != 2 || !fl.HasIndex {
-			x.FailCase(rc, "c06:"+class+":malformed-after-continue", "final archive is not an indexed CARv2")
-		} else if got, want := recMultiset(fl.IndexCodec, fl.Index), recMultiset(fl.IndexCodec, refcar.RecordsOf(fl.Payload, o.StoreID)); got != want {
-			x.FailCase(rc, "c06:"+class+":malformed-after-continue", "final index {%s} does not match the payload {%s}", got, want)
+	if !failed {
+		// exact payload: acknowledged sections in put order (each once unless duplicates are allowed),
+		// whatever prefix of the interrupted call had reached the disk, then the continuation
+		if exp := c06Expected(o, m.gens, cont); !exp[strings.Join(seq, ",")] {
+			fail("c06:"+class+":wrong-sections-after-continue", "final archive holds sections [%s]; the sessions and the continuation allow only %v", c06Names(seq), c06NamesSet(exp))
 		}
 	}
+	var wantRoots [][]byte
+	for _, r := range roots {
+		wantRoots = append(wantRoots, r.Bytes())
+	}
+	if got := fl.Payload.Header.Roots; len(got) != len(wantRoots) || !bytes.Equal(bytes.Join(got, []byte{0xff}), bytes.Join(wantRoots, []byte{0xff})) {
+		fail("c06:"+class+":wrong-roots-after-continue", "final archive has roots %x, want %x", got, wantRoots)
+	}
+	if o.V1 {
+		if fl.Version != 1 {
+			fail("c06:"+class+":malformed-after-continue", "final archive of a CARv1-mode session is version %d", fl.Version)
+		}
+		return
+	}
+	if fl.Version != 2 || !fl.HasIndex {
+		fail("c06:"+class+":malformed-after-continue", "final archive is not an indexed CARv2")
+		return
+	}
+	if got, want := recMultiset(fl.IndexCodec, fl.Index), recMultiset(fl.IndexCodec, refcar.RecordsOf(fl.Payload, o.StoreID)); got != want {
+		fail("c06:"+class+":malformed-after-continue", "final index {%s} does not match the payload {%s}", got, want)
+	}
+	if fl.IndexCodec != codecNum(o) {
+		fail("c06:"+class+":wrong-header-after-continue", "final index has codec %#x, the options ask for %#x", fl.IndexCodec, codecNum(o))
+	}
+	// header arithmetic against the options of the resuming session
+	h := fl.V2
+	if h.DataOffset != refcar.PragmaSize+refcar.V2HeaderSize+o.DataPad || h.DataSize != fl.Payload.End || h.IndexOffset != h.DataOffset+h.DataSize+o.IndexPad {
+		fail("c06:"+class+":wrong-header-after-continue", "final header {DataOffset %d DataSize %d IndexOffset %d}: want DataOffset 51+%d, DataSize %d (header and sections), IndexOffset = end of payload + %d",
+			h.DataOffset, h.DataSize, h.IndexOffset, o.DataPad, fl.Payload.End, o.IndexPad)
+	}
+	if h.FullyIndexed() {
+		x.Outcome("final-fully-indexed")
+	}
+}
+
+func c06Names(seq []string) string {
+	var out []string
+	for _, h := range seq {
+		name := h
+		raw, _ := hex.DecodeString(h)
+		for _, n := range kit.AlphaOrder {
+			if bytes.Equal(kit.Alpha[n].Raw, raw) {
+				name = n
+			}
+		}
+		if len(name) > 12 {
+			name = name[:12] + ".."
+		}
+		out = append(out, name)
+	}
+	return strings.Join(out, " ")
+}
+
+func c06NamesSet(exp map[string]bool) []string {
+	var out []string
+	for k := range exp {
+		if k == "" {
+			out = append(out, "[]")
+			continue
+		}
+		out = append(out, "["+c06Names(strings.Split(k, ","))+"]")
+	}
+	return out
 }
 
 func multihashBytes(raw []byte) []byte {
@@ -435,80 +918,123 @@ func multihashBytes(raw []byte) []byte {
 	return ci.Multihash()
 }
 
-func runC06(c any, x *kit.Ctx) {
-	cs := c.(C06Case)
-	path := filepath.Join(x.Dir, "c06-session.car")
-	os.Remove(path)
-	defer os.Remove(path)
-	se, err := c06RunSession(cs.Front, path, cs.Opts, cs.Gen1)
-	if err != nil {
-		x.Fail("c06:session-error:"+cs.Front, "generation-1 session %v failed: %v", cs.Gen1, err)
+// c06Mismatch reopens a complete image with roots / data padding that do not match the file.
+// The property only constrains a refusal: it must not destroy acknowledged blocks.
+func c06Mismatch(x *kit.Ctx, rc C06Case, img []byte, acked []kit.Blk, class string) {
+	if len(img) == 0 {
 		return
 	}
-	ackedBefore := []kit.Blk{}
-	if cs.Gen2 != nil {
-		// cut generation 1, then run generation 2 from that image
-		img := se.tr.Img
-		if cs.Cut1 != nil {
-			img = drv.Image(se.base, se.tr.Log, cs.Cut1.I, cs.Cut1.T)
-			for _, p := range se.puts {
-				if se.tr.CallEnd[p.call] <= cs.Cut1.I {
-					ackedBefore = append(ackedBefore, p.blk)
-				}
-			}
-		} else {
-			for _, p := range se.puts {
-				ackedBefore = append(ackedBefore, p.blk)
-			}
+	type mm struct {
+		tag   string
+		roots string
+		o     drv.Opts
+	}
+	wrongPad := rc.Opts
+	wrongPad.DataPad++
+	wrongRoots := "b"
+	if rc.Roots == "b" {
+		wrongRoots = ""
+	}
+	for _, v := range []mm{{"roots", wrongRoots, rc.Opts}, {"datapad", rc.Roots, wrongPad}} {
+		if v.tag == "datapad" && rc.Opts.V1 {
+			continue // no CARv2 header, no padding
 		}
+		path := filepath.Join(x.Dir, "c06-mm.car")
 		if err := os.WriteFile(path, img, 0o644); err != nil {
 			panic(err)
 		}
-		se2, err := c06RunSession(cs.Front, path, cs.Opts, cs.Gen2)
+		f, err := os.OpenFile(path, os.O_RDWR, 0o644)
 		if err != nil {
-			// generation 2 cannot even start from this image: nothing to enumerate here
-			// (the refusal itself is judged by the generation-1 case for that crash point)
-			x.Outcome("gen2-refused")
+			panic(err)
+		}
+		x.Eval(1)
+		s, err := c06Open(rc.Front, f, c06RootSet(v.roots), v.o, true)
+		if err == nil {
+			s.Discard()
+			x.Outcome("mismatch-" + v.tag + "-reopen-ok")
+		} else {
+			x.Outcome("mismatch-" + v.tag + "-reopen-refused")
+			after, _ := os.ReadFile(path)
+			if name, ok := c06SectionsIntact(img, after, acked); !ok {
+				x.FailCase(rc, "c06:"+class+":acked-block-destroyed-by-refused-reopen:mismatch-"+v.tag, "reopen with mismatching %s failed (%v) and destroyed acknowledged block %s", v.tag, err, name)
+			}
+			if !bytes.Equal(after, img) {
+				x.Outcome("mismatch-" + v.tag + "-reopen-refused-file-modified")
+			}
+		}
+		f.Close()
+		os.Remove(path)
+	}
+}
+
+func runC06(c any, x *kit.Ctx) {
+	cs := c.(C06Case)
+	roots := c06RootSet(cs.Roots)
+	path := filepath.Join(x.Dir, "c06-session.car")
+	os.Remove(path)
+	defer os.Remove(path)
+	n := cs.nGens()
+	ops := [][]string{cs.Gen1, cs.Gen2, cs.Gen3}[:n]
+	cuts := []*C06Point{cs.Cut1, cs.Cut2}
+	var prior []c06GenModel
+	var se *c06Sess
+	stalePrior := false
+	for g := 0; g < n; g++ {
+		var err error
+		se, err = c06RunSession(cs.Front, path, cs.Opts, roots, ops[g])
+		if err != nil {
+			if g == 0 {
+				x.Fail("c06:session-error:"+cs.Front, "generation-1 session %v failed: %v", cs.Gen1, err)
+				return
+			}
+			// this generation cannot even start from the image: nothing to enumerate here (the
+			// refusal itself is judged by the case of the previous generation for that crash point)
+			x.Outcome(fmt.Sprintf("gen%d-refused", g+1))
 			return
 		}
-		se = se2
+		if g == n-1 {
+			break
+		}
+		// cut this generation and let the next one start from the image
+		img := se.tr.Img
+		at := -1
+		if cuts[g] != nil {
+			img = drv.Image(se.base, se.tr.Log, cuts[g].I, cuts[g].T)
+			at = cuts[g].I
+			stalePrior = stalePrior || c06IndexOnDisk(se, cuts[g].I, cuts[g].T) > 0
+		}
+		prior = append(prior, c06ModelAt(se, at))
+		if err := os.WriteFile(path, img, 0o644); err != nil {
+			panic(err)
+		}
 	}
 	checkPoint := func(i, t int) {
 		img := drv.Image(se.base, se.tr.Log, i, t)
-		acked := append([]kit.Blk{}, ackedBefore...)
-		var inflight []kit.Blk
-		for _, p := range se.puts {
-			if se.tr.CallEnd[p.call] <= i {
-				acked = append(acked, p.blk)
-			} else if i < len(se.tr.Log) && se.tr.Log[i].Call == p.call {
-				inflight = append(inflight, p.blk)
-			} else if p.call > 0 && se.tr.CallEnd[p.call-1] <= i && i < se.tr.CallEnd[p.call] {
-				inflight = append(inflight, p.blk)
-			}
-		}
-		// blocks put in generation 1 but not acknowledged at its cut may also be on disk
-		if cs.Gen2 != nil && cs.Cut1 != nil {
-			for _, op := range cs.Gen1 {
-				if strings.HasPrefix(op, "put:") {
-					inflight = append(inflight, kit.B(strings.TrimPrefix(op, "put:")))
-				}
-				if strings.HasPrefix(op, "many:") {
-					inflight = append(inflight, kit.Bs(strings.Split(strings.TrimPrefix(op, "many:"), ","))...)
-				}
-			}
-		}
+		gens := append(append([]c06GenModel{}, prior...), c06ModelAt(se, i))
 		class := "end"
 		if i < len(se.tr.Log) {
 			class = c06Class(se, i, t)
 		}
-		if cs.Gen2 != nil {
-			class = "gen2:" + class
+		if n > 1 {
+			class = fmt.Sprintf("gen%d:", n) + class
 		}
-		rc := C06Case{Front: cs.Front, Opts: cs.Opts, Gen1: cs.Gen1, Cut1: cs.Cut1, Gen2: cs.Gen2, Point: &C06Point{i, t}}
-		c06CheckImage(x, rc, img, acked, inflight, class)
-		x.State(fmt.Sprintf("%s|%+v|%x", cs.Front, cs.Opts, img))
+		clean := t == 0 && i == len(se.tr.Log)
+		for _, e := range se.tr.CallEnd {
+			clean = clean || (t == 0 && e == i)
+		}
+		rc := cs
+		rc.Gens = n
+		rc.Point = &C06Point{i, t}
+		onDisk := c06IndexOnDisk(se, i, t)
+		m := &c06Img{rc: rc, img: img, gens: gens, class: class, clean: clean, classA: onDisk >= 1024,
+			staleTail: cs.Opts.ZeroEOF && cs.Opts.IndexPad > 0 && !cs.Opts.V1 && (stalePrior || onDisk > 0)}
+		c06CheckImage(x, m)
+		if i == len(se.tr.Log) {
+			c06Mismatch(x, rc, img, m.acked(), class)
+		}
+		x.State(fmt.Sprintf("%s|%s|%+v|%x", cs.Front, cs.Roots, cs.Opts, img))
 		if t > 0 {
-			x.Nontrivial(fmt.Sprintf("%s|%+v|%v|%v|%v|%d|%d", cs.Front, cs.Opts, cs.Gen1, cs.Cut1, cs.Gen2, i, t))
+			x.Nontrivial(fmt.Sprintf("%s|%s|%+v|%v|%v|%v|%v|%v|%d|%d", cs.Front, cs.Roots, cs.Opts, cs.Gen1, cs.Cut1, cs.Gen2, cs.Cut2, cs.Gen3, i, t))
 		}
 	}
 	if cs.Point != nil {
@@ -527,15 +1053,74 @@ func runC06(c any, x *kit.Ctx) {
 	x.Count("writes_logged", len(se.tr.Log))
 }
 
+// c06Resumable tells whether the front-end accepts to reopen img (generator pre-check: later
+// generations are only enumerated from images that resume).
+func c06Resumable(dir, front string, o drv.Opts, roots []cid.Cid, img []byte) bool {
+	if len(img) == 0 {
+		return false
+	}
+	path := filepath.Join(dir, "pre.car")
+	if err := os.WriteFile(path, img, 0o644); err != nil {
+		panic(err)
+	}
+	f, err := os.OpenFile(path, os.O_RDWR, 0o644)
+	if err != nil {
+		panic(err)
+	}
+	defer f.Close()
+	s, err := c06Open(front, f, roots, o, true)
+	if err != nil {
+		return false
+	}
+	s.Discard()
+	return true
+}
+
+// c06Cuts lists the crash points of a traced session from which the front-end resumes.
+// reduce: clean boundaries and one torn length per write (else the tier's torn lengths).
+func c06Cuts(dir, front string, o drv.Opts, roots []cid.Cid, se *c06Sess, tier string, reduce, cleanOnly bool) []C06Point {
+	var out []C06Point
+	for i := 0; i < len(se.tr.Log); i++ {
+		ts := c06Torn(se.tr.Log[i], tier, tier == "thorough" && !reduce)
+		if reduce && len(ts) > 2 {
+			ts = []int{0, ts[len(ts)/2]}
+		}
+		if cleanOnly {
+			ts = []int{0}
+		}
+		for _, t := range ts {
+			if c06Resumable(dir, front, o, roots, drv.Image(se.base, se.tr.Log, i, t)) {
+				out = append(out, C06Point{i, t})
+			}
+		}
+	}
+	return out
+}
+
 func genC06(tier string, emit func(any)) {
-	cfgs := []drv.Opts{
+	thorough := tier == "thorough"
+	dir, err := os.MkdirTemp("/dev/shm", "c06gen")
+	if err != nil {
+		panic(err)
+	}
+	defer os.RemoveAll(dir)
+
+	base := []drv.Opts{
 		{}, {DataPad: 3, IndexPad: 2, Codec: "sorted"}, {V1: true}, {StoreID: true}, {ZeroEOF: true}, {DataPad: 3}, {IndexPad: 2, StoreID: true, Codec: "sorted"},
 		{DataPad: 1413}, // padding larger than payload + index: offsets relative to the payload and to the file differ by more than the file length
+	}
+	// round 2: zero-length-section-as-EOF over an index padding hole (the only zeros that can follow a
+	// payload in a crash image), key semantics, duplicates, CARv1 mode combined
+	extra := []drv.Opts{
+		{ZeroEOF: true, IndexPad: 2}, {ZeroEOF: true, IndexPad: 2000, DataPad: 3}, {Whole: true}, {AllowDup: true}, {V1: true, ZeroEOF: true}, {V1: true, StoreID: true},
+		{Whole: true, AllowDup: true, StoreID: true},
 	}
 	sessions := [][]string{
 		{}, {"F"}, {"put:a"}, {"put:a", "F"}, {"put:a", "put:b"}, {"put:a", "put:b", "F"}, {"put:e", "put:a", "F"},
 		{"put:L300", "F"}, {"put:a", "put:L300", "F"}, {"put:L70000", "put:a", "F"}, {"put:a", "put:a", "put:b", "F"},
 		{"many:a,b", "F"}, {"put:e", "many:a,b,L300"}, {"many:a,a,b", "put:a'", "F"},
+		// CIDv0, sha2-512, truncated sha2-256, blake2b: several multihash codes and digest widths in one index
+		{"put:a0", "put:s", "put:t", "put:k", "F"},
 	}
 	// a session whose index is larger than the section length that the index bytes themselves
 	// spell when misread as a section (0x0400/0x0401 as a varint = 1024/1025)
@@ -543,62 +1128,146 @@ func genC06(tier string, emit func(any)) {
 	for n := 40; n < 72; n++ {
 		many = append(many, fmt.Sprintf("put:L%d", n))
 	}
-	sessions = append(sessions, append(many, "F"))
-	if tier == "thorough" {
-		sessions = append(sessions, []string{"put:a", "put:b", "put:e", "F"}, []string{"put:b", "put:L300", "put:a", "F"}, []string{"put:a", "put:L70000", "put:b"}, []string{"put:a'", "put:a", "put:e"})
+	manyF := append(append([]string{}, many...), "F")
+	sessions = append(sessions, manyF)
+	// reduced session list: the new configurations in the quick tier, the extra front-ends and root sets
+	reduced := [][]string{
+		{"F"}, {"put:a", "F"}, {"put:a", "put:b"}, {"put:a", "put:L300", "F"}, {"put:e", "many:a,b,L300"}, {"many:a,a,b", "put:a'", "F"}, {"put:a0", "put:s", "put:t", "put:k", "F"},
 	}
-	for _, front := range []string{"bs", "st"} {
-		for _, o := range cfgs {
-			for _, s := range sessions {
-				if o.StoreID {
-					s2 := append(append([]string{}, s...))
-					emit(C06Case{Front: front, Opts: o, Gen1: s2, Tier: tier})
-					if len(s) > 0 && s[len(s)-1] == "F" {
-						s3 := append([]string{"put:i"}, s...)
-						emit(C06Case{Front: front, Opts: o, Gen1: s3, Tier: tier})
-					}
-					continue
-				}
-				emit(C06Case{Front: front, Opts: o, Gen1: s, Tier: tier})
+	if thorough {
+		sessions = append(sessions, []string{"put:a", "put:b", "put:e", "F"}, []string{"put:b", "put:L300", "put:a", "F"}, []string{"put:a", "put:L70000", "put:b"}, []string{"put:a'", "put:a", "put:e"},
+			[]string{"many:a,a',a0", "put:a", "put:a'", "F"})
+	}
+	emitSessions := func(front, rootSet string, o drv.Opts, list [][]string) {
+		for _, s := range list {
+			emit(C06Case{Front: front, Opts: o, Roots: rootSet, Gen1: append([]string{}, s...), Tier: tier})
+			if o.StoreID && len(s) > 0 && s[len(s)-1] == "F" {
+				emit(C06Case{Front: front, Opts: o, Roots: rootSet, Gen1: append([]string{"put:i"}, s...), Tier: tier})
 			}
-			// second generation: resume a complete image
-			gen2s := [][]string{{}, {"put:b"}, {"put:b", "F"}, {"F"}}
-			for _, g1 := range [][]string{{"put:a"}, {"put:a", "F"}, {"put:a", "put:L300", "F"}, append(append([]string{}, many...), "F")} {
-				for _, g2 := range gen2s {
-					emit(C06Case{Front: front, Opts: o, Gen1: g1, Gen2: g2, Tier: tier})
-				}
+		}
+	}
+	// second generation resuming a complete image of a first one
+	emitGen2Complete := func(front, rootSet string, o drv.Opts, g1s [][]string) {
+		for _, g1 := range g1s {
+			for _, g2 := range [][]string{{}, {"put:b"}, {"put:b", "F"}, {"F"}} {
+				emit(C06Case{Front: front, Opts: o, Roots: rootSet, Gens: 2, Gen1: g1, Gen2: g2, Tier: tier})
 			}
-			// second generation starting from every crash image of a first one (clean
-			// boundaries and one torn length per write in quick, all torn lengths in thorough)
-			for _, g1 := range [][]string{{"put:a", "F"}, {"put:a", "put:b"}} {
-				dir, err := os.MkdirTemp("/dev/shm", "c06gen")
-				if err != nil {
-					panic(err)
-				}
-				se, err := c06RunSession(front, filepath.Join(dir, "g1.car"), o, g1)
-				os.RemoveAll(dir)
-				if err != nil {
-					continue
-				}
-				for i := 0; i < len(se.tr.Log); i++ {
-					ts := c06Torn(se.tr.Log[i], tier, tier == "thorough")
-					if tier != "thorough" && len(ts) > 2 {
-						ts = []int{0, ts[len(ts)/2]}
-					}
-					for _, t := range ts {
-						for _, g2 := range [][]string{{"put:b", "F"}, {"put:e"}} {
-							emit(C06Case{Front: front, Opts: o, Gen1: g1, Cut1: &C06Point{i, t}, Gen2: g2, Tier: tier})
-						}
-					}
+		}
+	}
+	// second generation starting from every crash image of a first one that resumes (clean boundaries
+	// and one torn length per write in quick, all torn lengths in thorough)
+	emitGen2Crashed := func(front, rootSet string, o drv.Opts, g1s, g2s [][]string) {
+		roots := c06RootSet(rootSet)
+		for _, g1 := range g1s {
+			p := filepath.Join(dir, "g1.car")
+			os.Remove(p)
+			se, err := c06RunSession(front, p, o, roots, g1)
+			if err != nil {
+				continue // reported by the generation-1 case
+			}
+			for _, cut := range c06Cuts(dir, front, o, roots, se, tier, !thorough, false) {
+				cut := cut
+				for _, g2 := range g2s {
+					emit(C06Case{Front: front, Opts: o, Roots: rootSet, Gens: 2, Gen1: g1, Cut1: &cut, Gen2: g2, Tier: tier})
 				}
 			}
 		}
 	}
+	// three generations: the second one also crashes (at a call boundary or with one torn length per
+	// write), the third one's crash points are enumerated
+	emitGen3 := func(front, rootSet string, o drv.Opts, g1, g2, g3 []string) {
+		roots := c06RootSet(rootSet)
+		p := filepath.Join(dir, "g1.car")
+		os.Remove(p)
+		se, err := c06RunSession(front, p, o, roots, g1)
+		if err != nil {
+			return
+		}
+		for _, cut1 := range c06Cuts(dir, front, o, roots, se, tier, true, false) {
+			cut1 := cut1
+			p2 := filepath.Join(dir, "g2.car")
+			if err := os.WriteFile(p2, drv.Image(se.base, se.tr.Log, cut1.I, cut1.T), 0o644); err != nil {
+				panic(err)
+			}
+			se2, err := c06RunSession(front, p2, o, roots, g2)
+			if err != nil {
+				continue
+			}
+			for _, cut2 := range c06Cuts(dir, front, o, roots, se2, tier, true, !thorough) {
+				cut2 := cut2
+				emit(C06Case{Front: front, Opts: o, Roots: rootSet, Gens: 3, Gen1: g1, Cut1: &cut1, Gen2: g2, Cut2: &cut2, Gen3: g3, Tier: tier})
+			}
+		}
+	}
+	g1Complete := [][]string{{"put:a"}, {"put:a", "F"}, {"put:a", "put:L300", "F"}, manyF}
+	g1Crashed := [][]string{{"put:a", "F"}, {"put:a", "put:b"}, {"put:a", "put:L300", "F"}, {"many:a,b", "F"}}
+	g2Crashed := [][]string{{"put:b", "F"}, {"put:e"}}
+	for _, front := range []string{"bs", "st"} {
+		for _, o := range base {
+			emitSessions(front, "", o, sessions)
+			emitGen2Complete(front, "", o, g1Complete)
+			emitGen2Crashed(front, "", o, g1Crashed, g2Crashed)
+		}
+		for _, o := range extra {
+			if thorough {
+				// all sessions except the two with a 70 KB block (their exhaustive tearing is 70 000
+				// images each and exercises nothing that depends on these options)
+				var l [][]string
+				for _, s := range sessions {
+					if !strings.Contains(strings.Join(s, " "), "L70000") {
+						l = append(l, s)
+					}
+				}
+				emitSessions(front, "", o, l)
+				emitGen2Complete(front, "", o, g1Complete)
+			} else {
+				emitSessions(front, "", o, reduced)
+				emitGen2Complete(front, "", o, g1Complete[:3])
+			}
+			// a torn section on top of a dirty tail: the second generation tears a block whose section
+			// reaches into whatever the first generation left beyond the payload
+			emitGen2Crashed(front, "", o, g1Crashed, append(append([][]string{}, g2Crashed...), []string{"put:L300"}))
+		}
+		// three generations (reduced matrix of configurations in quick)
+		g3cfgs := []drv.Opts{{}, {DataPad: 3, IndexPad: 2, Codec: "sorted"}, {ZeroEOF: true, IndexPad: 2000, DataPad: 3}}
+		if thorough {
+			g3cfgs = append(append([]drv.Opts{}, base[:7]...), extra...)
+		}
+		for _, o := range g3cfgs {
+			emitGen3(front, "", o, []string{"put:a", "put:L300", "F"}, []string{"put:b", "F"}, []string{"put:e", "F"})
+			if thorough {
+				emitGen3(front, "", o, []string{"many:a,b", "F"}, []string{"put:L300"}, []string{"put:e", "F"})
+			}
+		}
+		// root sets: none, and five roots (CARv1 header of more than 127 bytes: two-byte length prefix)
+		rcfgs := []drv.Opts{{}, {DataPad: 3, IndexPad: 2, Codec: "sorted"}, {V1: true}}
+		if thorough {
+			rcfgs = append(rcfgs, drv.Opts{StoreID: true}, drv.Opts{ZeroEOF: true, IndexPad: 2}, drv.Opts{DataPad: 1413})
+		}
+		for _, rootSet := range []string{"empty", "five"} {
+			for _, o := range rcfgs {
+				emitSessions(front, rootSet, o, reduced)
+				emitGen2Complete(front, rootSet, o, g1Complete[:2])
+				emitGen2Crashed(front, rootSet, o, g1Crashed[:2], g2Crashed[:1])
+			}
+		}
+	}
+	// other entry points named by the property: blockstore.OpenReadWrite(path) + FinalizeReadOnly/Close on every
+	// crash image; storage.NewWritable for the first generation
+	for _, front := range []string{"bsp", "stw"} {
+		cfgs := []drv.Opts{{}, {DataPad: 3, IndexPad: 2, Codec: "sorted"}, {V1: true}}
+		if thorough {
+			cfgs = append(append([]drv.Opts{}, base...), extra...)
+		}
+		for _, o := range cfgs {
+			emitSessions(front, "", o, reduced)
+			emitGen2Complete(front, "", o, g1Complete[:2])
+			if thorough {
+				emitGen2Crashed(front, "", o, g1Crashed[:2], g2Crashed[:1])
+			}
+		}
+	}
 }
-
-// genC06Gen2Crashed enumerates second-generation sessions that start from crashed images of
-// a first one; it needs to run generation 1 to know its write log, so it is produced by a
-// dedicated pseudo-case expanded at run time (see runC06Expand).
 
 func init() {
 	kit.Register(&kit.Prop{
@@ -606,11 +1275,22 @@ func init() {
 		Gen:    genC06,
 		Run:    runC06,
 		Decode: kit.DecodeAs[C06Case],
-		Rule: "for every writing session of the bound (open, puts incl. payloads > 255 and > 65535 bytes, duplicates, finalize) x 8 option configurations x {blockstore.OpenReadWriteFile, storage.New/OpenReadableWritable}, and for second-generation sessions that resume a first one: the REAL write order is recorded through the build-tag write seam plus file diffing (pragma, Truncate); " +
-			"EVERY crash image = every prefix of the log with the next write torn at every length (all lengths for writes <= 64 bytes, {1,2,mid,len-2,len-1} for larger data writes in quick, all in thorough) is reopened and judged; non-trivial = image with a torn write",
+		Rule: "for every writing session of the bound (open, Put/PutMany incl. payloads > 255 and > 65535 bytes, duplicates, CIDv0 / sha2-512 / truncated / blake2b / identity CIDs, finalize) x option configurations x front-ends, and for second- and third-generation sessions that resume a complete or crashed image of the previous one: the REAL write order is recorded through the build-tag write seam plus file diffing (pragma, Truncate); " +
+			"EVERY crash image = every prefix of the log with the next write torn at every length (all lengths for writes <= 64 bytes, {1,2,mid,len-2,len-1} for larger data writes in quick, all in thorough) is reopened and judged per image: refusal must leave every acknowledged section at its offset (what a refused reopen leaves behind is reopened once more); success must serve every acknowledged block, list them, serve nothing that was not put (all session blocks + 10 fixed probes, every listed key fetched; whole-CID keys under UseWholeCIDs), then Put(in-flight again), Put(an acknowledged block again), Put(c), Get, Finalize must give a strictly decodable archive whose section sequence is exactly one the model allows and whose header fields follow the options; " +
+			"complete images are also reopened with mismatching roots / data padding (refusal must not destroy blocks); non-trivial = image with a torn write",
 		Bound: func(tier string) map[string]any {
-			return map[string]any{"puts_per_session": "<=3 (quick) / <=3 plus more orders (thorough)", "generations": 2, "torn_lengths": "all for writes <=64B; 5 per larger write (quick) / all (thorough)", "configurations": 8}
+			return map[string]any{
+				"puts_per_session": "<=4 plus one 32-block session (quick) / plus more orders (thorough)",
+				"generations":      "1, 2 (from complete images and from every resumable crash image of 4 first generations), 3 (both earlier generations crashed; reduced configuration matrix in quick)",
+				"torn_lengths":     "all for writes <=64B; 5 per larger write (quick) / all (thorough); cuts of earlier generations: clean + 1 torn length per write (quick, and always for 3 generations) / all (thorough)",
+				"configurations":   "8 base + 7 round-2 {ZeroEOF+IndexPad 2, ZeroEOF+IndexPad 2000+DataPad 3, UseWholeCIDs, AllowDuplicatePuts, V1+ZeroEOF, V1+StoreIdentity, Whole+AllowDup+StoreIdentity}; round-2 ones on a reduced session list in quick",
+				"front_ends":       "bs (OpenReadWriteFile), st (New/OpenReadableWritable) full; bsp (images reopened with OpenReadWrite(path), FinalizeReadOnly+Close), stw (NewWritable then OpenReadableWritable): reduced sessions, 3 configurations in quick / all in thorough",
+				"root_sets":        "{a} full; {} and 5 roots (2-byte header length prefix): reduced sessions x 3 configurations (quick) / 6 (thorough)",
+			}
 		},
-		Assumptions: []string{"crash model = the property's: a prefix of the issued writes with the last one torn (the library issues no syncs, so no reordering dimension)", "a torn write past EOF extends the file only up to the torn length"},
+		Assumptions: []string{"crash model = the property's: a prefix of the issued writes with the last one torn (the library issues no syncs, so no reordering dimension)", "a torn write past EOF extends the file only up to the torn length",
+			"later generations are enumerated only from images the front-end accepts to resume (the refusal of the others is judged by the previous generation's case)",
+			"a refusal at a clean call boundary is allowed by C06 (counted as outcome reopen-refused-at-call-boundary; C12 owns resumability)",
+			"resume.go's DataSize==0 branch is unreachable (Header.ReadFrom rejects it first) and is not claimed as covered"},
 	})
 }
